@@ -265,6 +265,9 @@ async def run_case(acc, clock, slots, prior, req, state, cid, concur=None, step_
                 else:
                     if fixwire.get(fr, 43) != "Y":
                         V("chain:retransmission-without-possdup", f"number {n}"); ok = False; break
+                    if sum(1 for t_, _ in fr if t_ == "43") != 1 or sum(1 for t_, _ in fr if t_ == "122") != 1:
+                        V("chain:possdup-fields-not-exactly-once", f"number {n}: PossDupFlag x{sum(1 for t_, _ in fr if t_ == '43')}, "
+                          f"OrigSendingTime x{sum(1 for t_, _ in fr if t_ == '122')}"); ok = False; break
                     o = parsed_before.get(c)
                     if o is None:
                         V("chain:retransmission-of-unjournaled-number", f"{c}"); ok = False; break
